@@ -497,26 +497,31 @@ func genCase(bin, wdir string, env []string) []byte {
 }
 
 func raceSignature(s string) string {
-	// first two function names of the report, for class stability
-	var fn []string
+	// the package of the first gocoin frame: one class per package keeps
+	// replay matching and shrinking stable (the report itself is in the message)
 	for _, l := range strings.Split(s, "\n") {
 		l = strings.TrimSpace(l)
 		if strings.HasPrefix(l, "github.com/piotrnar/gocoin/") && strings.Contains(l, "(") {
-			f := l[len("github.com/piotrnar/gocoin/"):strings.LastIndex(l, "(")]
-			if len(fn) == 0 || fn[len(fn)-1] != f {
-				fn = append(fn, f)
+			f := l[len("github.com/piotrnar/gocoin/"):]
+			if i := strings.Index(f, "."); i > 0 {
+				return f[:i]
 			}
-			if len(fn) == 2 {
-				break
-			}
+			return f
 		}
 	}
-	return strings.Join(fn, "|")
+	return "harness"
 }
 
 func fatalSignature(s string) string {
 	for _, l := range strings.Split(s, "\n") {
 		if strings.HasPrefix(l, "fatal error:") || strings.HasPrefix(l, "panic:") || strings.HasPrefix(l, "unexpected fault") || strings.HasPrefix(l, "SIG") {
+			if i := strings.Index(l, "0x"); i > 0 {
+				l = l[:i]
+			}
+			if i := strings.Index(l, " ["); i > 0 {
+				l = l[:i]
+			}
+			l = strings.TrimSpace(l)
 			l = strings.Map(func(r rune) rune {
 				if r == ' ' || r == ':' {
 					return '_'
